@@ -158,9 +158,10 @@ impl<'a> TypeShareVisitor<'a> {
                 .parsed_data
                 .import_types
                 .iter()
-                .find(|imp| imp.type_name == name)
-                .into_iter()
-                .next()
+                .filter(|imp| imp.type_name == name)
+                // The set has no order of its own: when the name was seen under several
+                // crates, always settle on the same one.
+                .min_by(|a, b| a.base_crate.cmp(&b.base_crate))
                 .cloned();
 
             // if found.is_none() {
